@@ -9,6 +9,12 @@ use fixed_buffer::*;
 use std::panic::{catch_unwind, AssertUnwindSafe};
 
 pub fn rf_line<const N: usize>(df: Df, pre: &[u8], ri: usize, srw: &Srw, maxcalls: usize, w: &mut impl std::io::Write) -> bool {
+    rf_line_mixed::<N>(&[df], pre, ri, srw, maxcalls, w)
+}
+
+/// like `rf_line`, with a different deframer for each call (cycling through `dfs`): state a call leaves behind for the
+/// next one must not depend on which deframer looked at the bytes
+pub fn rf_line_mixed<const N: usize>(dfs: &[Df], pre: &[u8], ri: usize, srw: &Srw, maxcalls: usize, w: &mut impl std::io::Write) -> bool {
     if pre.len() > N || ri > pre.len() || (ri > 0 && ri == pre.len()) {
         return false;
     }
@@ -22,7 +28,8 @@ pub fn rf_line<const N: usize>(df: Df, pre: &[u8], ri: usize, srw: &Srw, maxcall
     let mut calls: Vec<String> = vec![];
     let mut allocs = 0u64;
     let mut after_terminal = 0;
-    for _ in 0..maxcalls {
+    for callno in 0..maxcalls {
+        let df = dfs[callno % dfs.len()];
         log.borrow_mut().push("C".into());
         let mut a = 0u64;
         let r = catch_unwind(AssertUnwindSafe(|| {
@@ -69,7 +76,7 @@ pub fn rf_line<const N: usize>(df: Df, pre: &[u8], ri: usize, srw: &Srw, maxcall
         }
     }
     let lg = log.borrow().join(",");
-    writeln!(w, "RF {} {} {} {} {} {} | {} ; {} ; {}", N, df.name(), hex(pre), ri, srw.describe(), maxcalls, calls.join(","), lg, allocs).unwrap();
+    writeln!(w, "RF {} {} {} {} {} {} | {} ; {} ; {}", N, dfs.iter().map(|d| d.name()).collect::<Vec<_>>().join("+"), hex(pre), ri, srw.describe(), maxcalls, calls.join(","), lg, allocs).unwrap();
     true
 }
 
@@ -132,6 +139,8 @@ pub fn dispatch(n: usize, df: Df, pre: &[u8], ri: usize, srw: &Srw, maxcalls: us
         64 => rf_line::<64>(df, pre, ri, srw, maxcalls, w),
         96 => rf_line::<96>(df, pre, ri, srw, maxcalls, w),
         128 => rf_line::<128>(df, pre, ri, srw, maxcalls, w),
+        300 => rf_line::<300>(df, pre, ri, srw, maxcalls, w),
+        512 => rf_line::<512>(df, pre, ri, srw, maxcalls, w),
         4200 => rf_line::<4200>(df, pre, ri, srw, maxcalls, w),
         8192 => rf_line::<8192>(df, pre, ri, srw, maxcalls, w),
         _ => false,
@@ -296,6 +305,89 @@ pub fn run(mode: &str, thorough: bool, seed: u64, w: &mut impl std::io::Write) {
             }
         }
     }
+    // long runs: hundreds of reader calls inside ONE read_frame call (counters that wrap, retry budgets), and long runs
+    // of one and the same reader error
+    let mut ln = 0usize;
+    for (size, fl) in [(300usize, 280usize), (512, 299), (512, 260)] {
+        for df in [Df::Line, Df::Crlf, Df::Null] {
+            let term: &[u8] = match df { Df::Crlf => b"\r\n", Df::Null => b"\0", _ => b"\n" };
+            let mut data: Vec<u8> = (0..fl).map(|j| b'a' + (j % 26) as u8).collect();
+            data.extend_from_slice(term);
+            data.extend_from_slice(b"tail");
+            data.extend_from_slice(term);
+            let drip: Vec<RAct> = (0..data.len()).map(|_| RAct::Data(1, false)).collect();
+            if !errors {
+                let srw = mk(1, &data, drip.clone());
+                if dispatch(size, df, &[], 0, &srw, 8, w) {
+                    n += 1;
+                    ln += 1;
+                }
+            } else {
+                for kind in [2u8, 3, 5] {
+                    for run in [1usize, 2, 5, 9, 10, 11, 12, 40, 300] {
+                        if run > 40 && (kind != 2 || size != 512) {
+                            continue;
+                        }
+                        for at in [0usize, 3, fl / 2] {
+                            let mut v = drip.clone();
+                            for _ in 0..run {
+                                v.insert(at, RAct::Err(kind));
+                            }
+                            let srw = mk(1, &data, v);
+                            if dispatch(size, df, &[], 0, &srw, run + 8, w) {
+                                n += 1;
+                                ln += 1;
+                            }
+                        }
+                    }
+                }
+            }
+        }
+    }
+    // a different deframer for each call: what one call leaves behind (buffered bytes another deframer considers
+    // complete / incomplete, EOF or an error in between) must not carry over as hidden state
+    let mut mn = 0usize;
+    {
+        let pairs: [&[Df]; 6] = [&[Df::Crlf, Df::Line], &[Df::Line, Df::Crlf], &[Df::Null, Df::Line], &[Df::Line, Df::Null, Df::Crlf], &[Df::Crlf, Df::Crlf, Df::Line], &[Df::LenPrefix, Df::Line]];
+        let alpha2 = [b'a', b'\r', b'\n', 0u8, 2u8];
+        for st in strings(&alpha2, if thorough { 5 } else { 4 }) {
+            for dfs in pairs {
+                let mut scripts: Vec<Vec<RAct>> = vec![vec![], vec![RAct::Data(1, false), RAct::Data(2, false)], vec![RAct::Data(st.len().max(1), false), RAct::Eof]];
+                if errors {
+                    scripts = vec![vec![RAct::Data(st.len().max(1), false), RAct::Err(5)], vec![RAct::Err(4), RAct::Data(2, false), RAct::Err(2)]];
+                }
+                for sc in scripts {
+                    let srw = mk(1, &st, sc);
+                    if rf_line_mixed::<8>(dfs, &[], 0, &srw, st.len() + 6, w) {
+                        n += 1;
+                        mn += 1;
+                    }
+                    if st.len() >= 3 && rf_line_mixed::<16>(dfs, &st[..2], 1, &srw, st.len() + 6, w) {
+                        n += 1;
+                        mn += 1;
+                    }
+                }
+            }
+        }
+    }
+    eprintln!("STAT rf mixed_deframer_scenarios={}", mn);
+    // every error kind std::io knows, at the first / a middle reader call
+    if errors {
+        for kind in (2u8..=38).filter(|k| *k != 0 && *k != 1) {
+            for df in [Df::Line, Df::Null] {
+                let data: &[u8] = if df == Df::Null { b"ab\0cd\0" } else { b"ab\ncd\n" };
+                for at in [0usize, 1, 2] {
+                    let mut v = vec![RAct::Data(2, false), RAct::Data(3, false), RAct::Data(1, false)];
+                    v.insert(at, RAct::Err(kind));
+                    let srw = mk(1, data, v);
+                    if dispatch(8, df, &[], 0, &srw, 10, w) {
+                        n += 1;
+                    }
+                }
+            }
+        }
+    }
+    eprintln!("STAT rf long_run_scenarios={} error_kinds=37", ln);
     // buffers beyond 4 KiB (size_of thresholds, windows): frames shorter and longer than 4096, several in the buffer
     let bcases = if thorough { 120 } else { 24 };
     for i in 0..bcases {
@@ -333,8 +425,11 @@ pub fn replay_line(l: &str, w: &mut impl std::io::Write) -> bool {
         return false;
     }
     let log = Log::default();
-    match (head[1].parse::<usize>(), Df::from_name(head[2]), crate::replay::unhex(head[3]), head[4].parse::<usize>(), Srw::parse(head[5], &log), head[6].parse::<usize>()) {
-        (Ok(n), Some(df), Some(pre), Ok(ri), Some(srw), Ok(mc)) => dispatch(n, df, &pre, ri, &srw, mc, w),
+    let dfs: Option<Vec<Df>> = head[2].split('+').map(Df::from_name).collect();
+    match (head[1].parse::<usize>(), dfs, crate::replay::unhex(head[3]), head[4].parse::<usize>(), Srw::parse(head[5], &log), head[6].parse::<usize>()) {
+        (Ok(n), Some(dfs), Some(pre), Ok(ri), Some(srw), Ok(mc)) if dfs.len() == 1 => dispatch(n, dfs[0], &pre, ri, &srw, mc, w),
+        (Ok(8), Some(dfs), Some(pre), Ok(ri), Some(srw), Ok(mc)) => rf_line_mixed::<8>(&dfs, &pre, ri, &srw, mc, w),
+        (Ok(16), Some(dfs), Some(pre), Ok(ri), Some(srw), Ok(mc)) => rf_line_mixed::<16>(&dfs, &pre, ri, &srw, mc, w),
         _ => false,
     }
 }
